@@ -4,7 +4,7 @@ From ChiaV.Clvm Require Import Sexp Ints.
 From ChiaV.Clvm Require Import TreeHash.
 From ChiaV.Gen Require Import Opcodes Builder.
 From ChiaV.Cond Require Import Model.
-From ChiaV.Bundle Require Import SolutionGen Interned SpendBundle BlockPath SexpProofs SolutionGenProofs AgreeProofs OrderProofs.
+From ChiaV.Bundle Require Import SolutionGen Interned SpendBundle BlockPath SexpProofs SolutionGenProofs AgreeProofs OrderProofs OrderFullProofs.
 From Coq Require Import Permutation.
 Open Scope N_scope.
 From ChiaV.Props Require Import C08.
@@ -86,3 +86,34 @@ Check C08_oracle_hyps_nonvacuous :
                (forall b, exists e, quote_run p s b = Err e)) /\
   (forall l l' : list (bytes * bytes), Permutation l l' -> (fun _ => true) l = (fun _ => true) l').
 Print Assumptions C08_oracle_hyps_nonvacuous.
+Check C08_agree :
+  forall valid_key (H : bytes -> bytes) K run sig_ok cpb fl gen_args,
+  (forall x args budget,
+     run (Pair (Atom [x01]) x) args budget = if budget <? 20 then Err CostExceeded else Ok (20, x)) ->
+  (forall p s, (exists c r, forall b, run p s b = (if b <? c then Err CostExceeded else Ok (c, r))) \/
+               (forall b, exists e, run p s b = Err e)) ->
+  (forall l l', Permutation l l' -> sig_ok l = sig_ok l') ->
+  forall spends g program max_cost,
+  Forall (good_spend H) spends ->
+  bf_interned fl = false ->
+  N.of_nat (length spends) <= MAX_SPENDS_PER_BLOCK ->
+  build_generator spends = Some g -> ser g = Some program ->
+  match mempool_path valid_key H K run sig_ok cpb fl spends max_cost,
+        run_block_generator2 valid_key H K run sig_ok cpb fl gen_args program (nlen program) (max_cost + overhead cpb) with
+  | Ok m, Ok b => agree_full (overhead cpb) b m
+  | Err _, Err _ => True
+  | _, _ => False
+  end.
+Print Assumptions C08_agree.
+Check C08_mempool_order_full :
+  forall vk (H : bytes -> bytes) K run cpb fl,
+  (forall p s, (exists c r, forall b, run p s b = (if b <? c then Err CostExceeded else Ok (c, r))) \/
+               (forall b, exists e, run p s b = Err e)) ->
+  bf_interned fl = false ->
+  forall L max_cost,
+  match run_spendbundle vk H K run cpb fl (rev L) max_cost, run_spendbundle vk H K run cpb fl L max_cost with
+  | Ok r', Ok r => full_eq r' r
+  | Err _, Err _ => True
+  | _, _ => False
+  end.
+Print Assumptions C08_mempool_order_full.
